@@ -153,6 +153,41 @@ func (p *Prog) classifyLoop(fn *ssa.Function, l *Loop) (loopClass, bool) {
 			if !ok || !definedOutside(l, bound) {
 				return loopClass{}, false
 			}
+			// the induction variable must be able to pass the bound without wrapping around in its own type
+			// (`for b := byte(0); b <= 255; b++` never ends)
+			if bt, isB := phi.Type().Underlying().(*types.Basic); isB && bt.Info()&types.IsInteger != 0 {
+				var step int64 = 1
+				for i, e := range phi.Edges {
+					if l.Blocks[phi.Block().Preds[i]] {
+						if add, ok := e.(*ssa.BinOp); ok {
+							if k, isC := constInt(add.Y); isC && k > step {
+								step = k
+							}
+						}
+					}
+				}
+				bits := uint(p.U.Sizes.Sizeof(bt) * 8)
+				var max int64 = math.MaxInt64
+				if bits < 64 {
+					max = int64(1)<<bits - 1
+					if bt.Info()&types.IsUnsigned == 0 {
+						max = int64(1)<<(bits-1) - 1
+					}
+				} else if bt.Info()&types.IsUnsigned == 0 {
+					max = math.MaxInt64
+				}
+				last := step - 1 // with `<`: the largest value tested is bound-1+step-… ; the value after the last increment is at most bound-1+step
+				if op == token.LEQ {
+					last = step
+				}
+				if k, isC := constInt(bound); isC {
+					if k > max-last {
+						return loopClass{}, false
+					}
+				} else if bits < 64 && (op == token.LEQ || step > 1) {
+					return loopClass{}, false // the bound may be the type's largest value
+				}
+			}
 			kind := "counted"
 			if phi.Comment == "rangeindex" || phi.Comment == "" {
 				kind = "counted"
